@@ -28,8 +28,14 @@ var (
 func c16BindIP() net.IP {
 	c16IPOnce.Do(func() {
 		// testutil reports retries on os.Stdout, which in exec mode is the trace
+		// (and ./check merges stderr into it), so they go nowhere
 		old := os.Stdout
-		os.Stdout = os.Stderr
+		if dn, err := os.OpenFile(os.DevNull, os.O_WRONLY, 0); err == nil {
+			os.Stdout = dn
+			defer dn.Close()
+		} else {
+			os.Stdout = os.Stderr
+		}
 		ip, _ := testutil.TakeIP() // kept for the life of the process
 		os.Stdout = old
 		c16IP = ip
